@@ -43,11 +43,11 @@ MANIFEST = {
             "panic nor succeed - for chunk length 0, fewer than two aggregators, or a Sum bound >= 2^63, and must succeed on admissible parameters. (M) Reports altered in one field (leader measurement / proof element, "
             "blind, helper seed, swapped / copied / foreign shares, public-share part, nonce at one aggregator, nonce everywhere for joint-randomness instances, prep-share element / joint-randomness part, prep message, "
             "any length change, and edits making the sum of shares a non-bit, out-of-range, two-hot, zero-hot or over-weight measurement) must be refused during preparation and the aggregate of the remaining reports "
-            "must be unchanged; invalid measurements handed to Shard must be refused by the client or rejected in preparation. (I) marshal(unmarshal(b)) == b for every message type at every step, with the source buffer overwritten right after every unmarshal and the measurement / nonce / randomness / verify key / context buffers overwritten right after the call that took them (no result may alias a caller buffer); every API call leaves its operands unchanged (re-marshalled after the call) and a repeated call on the same operands returns the same result (Unshard always, the others in a third of the cases); a running aggregation collected half way, extended and collected twice agrees with the model; interleaved histories on one instance (per-report steps of all valid reports, an altered and an abandoned one in drawn orders: all PrepInit first, staggered, reverse completion, shuffled) leave every prep state / share / message object of the other reports unchanged and give the sequential verdicts and aggregate. "
+            "must be unchanged; invalid measurements drawn from the exact boundary of every documented range (max+1, max+2, 2^bits, length, length+1, weight maxWeight+1, wrong vector length, …) must be refused by Shard with an error - never a panic - or rejected in preparation. (I) marshal(unmarshal(b)) == b for every message type at every step, with the source buffer overwritten right after every unmarshal and the measurement / nonce / randomness / verify key / context buffers overwritten right after the call that took them (no result may alias a caller buffer); every API call leaves its operands unchanged (re-marshalled after the call) and a repeated call on the same operands returns the same result (Unshard always, the others in a third of the cases); a running aggregation collected half way, extended and collected twice agrees with the model; interleaved histories on one instance (per-report steps of all valid reports, an altered and an abandoned one in drawn orders: all PrepInit first, staggered, reverse completion, shuffled) leave every prep state / share / message object of the other reports unchanged and give the sequential verdicts and aggregate. "
             "White box, the validity circuit of each instance must accept every valid and refuse every invalidated encoded measurement when the proof is generated for that very measurement (element index biased to the last chunk). "
             "Exploration is the right level: the domain (parameters x batches x randomness x alterations) is unbounded and the oracle is exact per case.",
     "note": "trusts math/big, ref/keccak and ref/prio3xof (self-tested against the draft's vectors and RFC 9861); statistical soundness error of the FLP is ignored; "
             "not asserted, only counted: a nonce changed consistently at all aggregators for Count/Sum, a public-share part altered only for the aggregator that owns it (the draft lets it be overwritten), "
-            "splices between reports that share a nonce or helper seeds, aggregates >= 2^64 or >= the modulus, Shard of an invalid measurement returning an error or panicking (refused at the client); "
+            "splices between reports that share a nonce or helper seeds, aggregates >= 2^64 or >= the modulus, "
             "the proof share's additive consistency is only covered through verification, not recomputed; never establishes absence",
 }
